@@ -83,7 +83,13 @@ macro_rules
               id_eq, $ts,*,
               Gen.bind_def, Gen.pure_def, Parser.bindP, Parser.pureP, Parser.opt, Parser.map, Parser.alt]
          repeat' split
-         all_goals simp_all)
+         all_goals simp_all
+         done)
+      | (funext c
+         have key : ∀ n : Fin 256, $a (UInt8.ofNat n.val) = $b (UInt8.ofNat n.val) := by decide +kernel
+         have := key ⟨c.toNat, c.toNat_lt⟩
+         simpa using this
+         done)
       | (unfold $a
          first
          | rfl
